@@ -838,9 +838,9 @@ func (x *Exec) applyContract(e *ast.CallExpr, st *State, fn *types.Func, c *Cont
 	x.applyModifiesSel(st, c, fn, env, args, resN, true)
 	post := &cctx{x: x, st: st, old: pre, env: env, oldEnv: oldEnv, callee: c, resNames: resN}
 	for _, en := range c.Ensures {
-		if strings.Contains(en.Src, "now(") {
-			// speaks about the callee's locals: proved inside the callee, not
-			// exported to callers
+		if strings.Contains(en.Src, "now(") || strings.Contains(en.Src, "calls(") || strings.Contains(en.Src, "lastres(") || strings.Contains(en.Src, "lastarg(") {
+			// speaks about the callee's locals or its own call records:
+			// proved inside the callee, not exported to callers
 			continue
 		}
 		x.assumeEnsures(post.with(en), en, env, resN)
